@@ -3,6 +3,17 @@
 import json, re
 V = "/verif"
 NOTES = {
+ "f12B": "missed first (draft-13 bytes across two neighbouring unknown version numbers): adversarial version numbers in MC_Request (second configuration) and in the mutants",
+ "f17A": "missed first (send failure in the middle of a batch): requests from an unroutable source (raw socket, source port 0), ServerAbs accounts failed sends",
+ "f17B": "missed first (IPv4-mapped IPv6 keys): the abstract addresses of Stats.tla are concretised as IPv4 / mapped / IPv6 in turn",
+ "f05A": "missed first (PAD\\x00 accepted as PAD): near-miss tag words (one byte off) for all 18 tags; NearPad in the header generator of MC_Wire",
+ "f04B": "missed first; judged under C09 (change is in the responder, not the Merkle object): retransmissions (same datagram, same socket, back to back) in the burst driver",
+ "f09A": "missed first (edge-triggered + bounded drain strands a backlog > 16 batches): backlog rounds of 17x and 35x batch_size for small batches",
+ "f07B": "missed first (unaligned offsets with NONC length intact): every suffix of the offset table shifted by every small amount",
+ "f08A": "missed first (tag count = words in message + 1): tag counts at every boundary the datagram length defines",
+ "f19A": "missed first (reporter pass longer than its cadence panics the thread): reporter thread traced (r_* hooks, Process.tla reporter refined), delay injection at hook events",
+ "f15A": "missed first (reset connection ends the accept loop): aborted connections in Health.tla (AbortEndsLoop self-test) and in the replayed schedules",
+ "f15B": "judged under C16 (a valid configuration is refused depending on key order)",
  "c05B": "missed first (needs >= 3 tags): header-shaped generator and near-valid mutants added",
  "c10A": "first reported for a wrong reason (check demanded window [0, 2^64-1]); check corrected to what the property states",
  "c11B": "missed first (drain busy > 5 s): per-request clock bracket + slow-drain scenario; re-tuned after the D11 repair",
